@@ -151,6 +151,13 @@ impl Number {
             if exp < 0 && (self.value == Numeric::zero() || self.value == Numeric::Float(0.0)) {
                 return Err("Division by zero".to_string());
             }
+            if self
+                .unit
+                .iter()
+                .any(|(_, &power)| power.checked_mul(exp as i64).is_none())
+            {
+                return Err("Unit exponent is too large".to_string());
+            }
             Ok(self.powi(exp))
         } else if num == one {
             let exp: Option<i64> = den.as_int();
